@@ -68,7 +68,7 @@ def _gen_env_val(rng, key):
 
 
 def generate(rng, tier, index):
-    n = rng.randint(6, 22)
+    n = rng.randint(6, 22) if not (tier == "thorough" and rng.random() < 0.3) else rng.randint(20, 45)
     # initial durable state
     env = {}
     for k in ENV_KEYS:
@@ -404,7 +404,11 @@ def run(sc) -> RunResult:
                         cfg = None
                         continue
                     if got_err is not None:
-                        res.violate("C20/unexpected-exception", f"op#{n_op} import failed with ValueError({got_err}) for a well-formed environment {env}")
+                        if want["default_backend"] not in NAMES:
+                            # "unknown names are rejected with ValueError": rejecting already at import is fine
+                            res.hit("restart:unknown_name_rejected_at_import")
+                        else:
+                            res.violate("C20/unexpected-exception", f"op#{n_op} import failed with ValueError({got_err}) for a well-formed environment {env}")
                         up = False
                         cfg = None
                         continue
@@ -437,12 +441,21 @@ def run(sc) -> RunResult:
                         if got_err is None:
                             res.violate("C20/lenient-boolean", f"op#{n_op} Config() accepted the unparsable boolean {str(want_err)!r} (env {env})")
                     elif got_err is not None:
-                        res.violate("C20/unexpected-exception", f"op#{n_op} Config(infer_from_env={op['infer']}) raised ValueError({got_err}) for env {env}")
+                        if want["default_backend"] not in NAMES:
+                            res.hit("probe:unknown_name_rejected_at_construction")
+                        else:
+                            res.violate("C20/unexpected-exception", f"op#{n_op} Config(infer_from_env={op['infer']}) raised ValueError({got_err}) for env {env}")
                     else:
                         _compare_cfg(res, n_op, f"Config(infer_from_env={op['infer']})", c, want, env, installed)
                     continue
                 if k == "assign":
-                    setattr(cspuz.config, op["field"], op["val"])
+                    try:
+                        setattr(cspuz.config, op["field"], op["val"])
+                    except ValueError:
+                        if op["field"] == "default_backend" and op["val"] not in NAMES:
+                            res.hit("assign:unknown_name_rejected_at_assignment")
+                            continue
+                        raise
                     cfg[op["field"]] = op["val"]
                     res.hit("assign:" + op["field"])
                     res.log("op", n_op, "assign", op["field"], op["val"])
